@@ -41,6 +41,7 @@ man = dict(
         dict(name="E1-seam", path="mc/seam.py", serves_properties=meta.get("_engines", {}).get("E1", []), kind_free_text="randomness seam + stateless path explorer (complete probability trees of real executions)"),
         dict(name="E2E3-grammar-ref", path="mc/grammar.py", serves_properties=meta.get("_engines", {}).get("E2", []), kind_free_text="bounded program grammar -> real genjax object and numpy reference semantics"),
         dict(name="E5-fgrammar", path="mc/fgrammar.py", serves_properties=["C09", "C31", "C36"], kind_free_text="bounded grammar of JAX functions (control flow, literals, constants, multi-result primitives) for the jaxpr interpreters"),
+        dict(name="terms", path="mc/props", serves_properties=["C17", "C18", "C19", "C20", "C21", "C24", "C33"], kind_free_text="bounded-exhaustive term enumerators (choice-map / selection / mask / pytree terms, wrapper tables) with independent evaluators, inside the property modules"),
         dict(name="mc", path="mc/common.py", serves_properties=[], kind_free_text="runner: deterministic case enumeration, worker pool, evidence writer, known-findings matcher, replay"),
         dict(name="E4-space", path="mc/space.py", serves_properties=meta.get("_engines", {}).get("E4", []), kind_free_text="explicit-state BFS over GFI edit histories on real traces"),
     ],
